@@ -142,7 +142,20 @@ func (in *Inst) Exec(conn *net.Conn, cmd []string) Result {
 	}
 }
 
-func (in *Inst) Dump() (string, error) { return DumpState(in.S.VerifSnapshot()) }
+// ConnID numbers registered connections from 1; the nil connection is 0.
+func (in *Inst) ConnID(c *net.Conn) int {
+	if c == nil {
+		return 0
+	}
+	for i, x := range in.Conns {
+		if x == c {
+			return i + 1
+		}
+	}
+	return 999
+}
+
+func (in *Inst) Dump() (string, error) { return DumpState(in.S.VerifSnapshot(), in.ConnID) }
 
 // DbOf returns the database a caller is on.
 func (in *Inst) DbOf(conn *net.Conn) int {
@@ -177,7 +190,11 @@ func (in *Inst) Transition(seq string, conn *net.Conn, cmd []string) (string, Re
 		pol = constants.NoEviction
 	}
 	var sb strings.Builder
-	fmt.Fprintf(&sb, "T %s %d %d %d %s C %d", seq, now, db, in.Opts.MaxMemory, pol, len(cmd))
+	connTok := "e"
+	if conn != nil {
+		connTok = fmt.Sprint(in.ConnID(conn))
+	}
+	fmt.Fprintf(&sb, "T %s %d %d %s %d %s C %d", seq, now, db, connTok, in.Opts.MaxMemory, pol, len(cmd))
 	for _, a := range cmd {
 		sb.WriteString(" " + X(a))
 	}
